@@ -212,6 +212,15 @@ def r4(ctx):
         dr = [t for bb, t in b.calls(re.compile(r"^std::vec::Vec::drain$")) if _on_field(b, t["args"][0], "turmoil_net::fixture::scheduler::Scheduler::pending")]
         ctx.inst(R, "tick:due-prefix", okpos and len(pos) == 1 and len(dr) == 1, b.span, "due packets = prefix before the first deliver_at > now, drained front to back" if okpos and pos and dr else
                  "the due prefix is not computed as position(|s| s.deliver_at > now) and drained from the front")
+        # due packets of earlier ticks go out before anything emitted in this tick is routed
+        drb = [bb for bb, t in b.calls(re.compile(r"^std::vec::Vec::drain$")) if _on_field(b, t["args"][0], "turmoil_net::fixture::scheduler::Scheduler::pending")]
+        ea = [bb for bb, t in b.calls(re.compile(r"EnterGuard::egress_all$"))]
+        due_dl = [x for x in dl if not (ves and b.dominated_by_block(x, ves[0][0]))]
+        okord = len(drb) == 1 and bool(ea) and bool(due_dl) and all(b.dominated_by_block(x, drb[0]) for x in ea) and \
+            all(x not in b.reachable(e) for e in ea for x in due_dl)
+        ctx.inst(R, "tick:due-before-new", okord, b.span, "packets that fell due are delivered before this tick's egress is drained and routed" if okord else
+                 "Scheduler::tick routes this tick's egress before (or without) delivering the packets that fell due: a packet emitted later with "
+                 "an immediate verdict overtakes an earlier one whose delay ends on this tick")
         # the clock is advanced before the due prefix is computed
         adv = [bb for bb, t in b.calls(re.compile(r"Instant as std::ops::AddAssign>::add_assign$|Duration as std::ops::AddAssign>::add_assign$"))
                if "field:turmoil_net::fixture::scheduler::Scheduler::now" in Slicer(ctx.w).atoms(b, t["args"][0])]
